@@ -761,4 +761,35 @@ def distribution(cases, results):
         tot["Ok" if ":Ok/" in key else "Err"] += v
     d["checker_ok_err_total"] = tot
     return d
-THEOREMS = ["C09_first_err_ok"]
+
+
+# theorems of coq/theories/Props/C09.v (each followed there by Print Assumptions)
+THEOREMS = [
+    "C09_cartesian_power_complete",
+    "C09_cartesian_power_run",
+    "C09_associativity",
+    "C09_commutativity",
+    "C09_idempotency",
+    "C09_identity",
+    "C09_inverse",
+    "C09_nonzero_inverse",
+    "C09_absorbing_element",
+    "C09_left_distributes",
+    "C09_right_distributes",
+    "C09_no_nonzero_zero_divisors",
+    "C09_composites",
+    "C09_single_function_properties",
+    "C09_associativity_eq",
+    "C09_distributive_eq",
+    "C09_linearity_tests_swapped_law",
+    "C09_linearity_partial",
+    "C09_linearity_refuted",
+    "C09_linearity_accepts_nonlinear_refuted",
+    "C09_bilinearity",
+    "C09_model_satisfies_executable_form",
+    "C09_deciders_decide_the_laws",
+    "C09_binary_trust_semiring",
+    "C09_multiplicity_semiring",
+    "C09_cost_semiring",
+    "C09_confidence_mul_assoc_refuted",
+]
